@@ -618,6 +618,14 @@ func (cc *Conn) AsyncPing(receivedPong func()) (func(), error) {
 	req.SetCode(codes.Empty)
 	mid := cc.GetMessageID()
 	req.SetMessageID(mid)
+	// the pending entry owns a copy of its own (as in prepareWriteMessage): it may be released by an
+	// acknowledgement, an expiry or Close while req is still being written below
+	defer cc.ReleaseMessage(req)
+	msg := cc.AcquireMessage(req.Context())
+	if err := req.Clone(msg); err != nil {
+		cc.ReleaseMessage(msg)
+		return nil, fmt.Errorf("cannot clone message: %w", err)
+	}
 	if _, loaded := cc.midHandlerContainer.LoadOrStore(mid, &midElement{
 		handler: func(_ *responsewriter.ResponseWriter[*Conn], r *pool.Message) {
 			if r.Type() == message.Reset || r.Type() == message.Acknowledgement {
@@ -629,8 +637,9 @@ func (cc *Conn) AsyncPing(receivedPong func()) (func(), error) {
 		private: struct {
 			sync.Mutex
 			msg *pool.Message
-		}{msg: req},
+		}{msg: msg},
 	}); loaded {
+		cc.ReleaseMessage(msg)
 		return nil, fmt.Errorf("cannot insert mid(%v) handler: %w", mid, coapErrors.ErrKeyAlreadyExists)
 	}
 	removeMidHandler := func() {
